@@ -60,3 +60,16 @@ Definition days_in (dl : list directive) (W E : Z) : Z :=
 Definition cell_steps (cfg : balance_cfg) (dl : list directive) (part : partition) (a : account) (c : commodity) (E : Z) : Z :=
   (bookings_in dl a c (p_start (span part)) E + days_in dl (p_start (span part)) E
    + (if bc_close cfg then Z.of_nat (length (periods part)) else 0))%Z.
+
+(* ---- the whole row: a valued row adds up the commodities of the account *)
+Definition row_value (a : account) (part : partition) (col : Z) (r : report) (coms : list commodity) : Q :=
+  LedgerProofs.qsum (fun c => cum_cell a c part col r) coms.
+Definition mv_row (dl : list directive) (V : commodity) (a : account) (T : Z) (coms : list commodity) : Q :=
+  LedgerProofs.qsum (fun c => mv_cell dl V a c T) coms.
+(* the valuation commodity itself takes no Multiply *)
+Fixpoint row_steps (cfg : balance_cfg) (dl : list directive) (part : partition) (V : commodity) (a : account) (E : Z)
+         (coms : list commodity) : Z :=
+  match coms with
+  | [] => 0%Z
+  | c :: rest => ((if str_eqb c V then 0 else cell_steps cfg dl part a c E) + row_steps cfg dl part V a E rest)%Z
+  end.
